@@ -190,7 +190,7 @@ def record(ctx, job, version=None, release=False):
     jp = os.path.join(ctx.scratch, f"job-{version}.json")
     op = os.path.join(ctx.scratch, f"out-{version}.json")
     json.dump(job, open(jp, "w"))
-    env = dict(os.environ, PYTHONPATH="/repo/src:/verif", PYTHONDONTWRITEBYTECODE="1")
+    env = dict(os.environ, PYTHONPATH=(os.environ.get("VERIF_REPO") or "/repo") + "/src:/verif", PYTHONDONTWRITEBYTECODE="1")
     if release:  # the execnet release installed in the venv's site-packages, not the tree under test
         env.update(PYTHONPATH="/verif", SER_RELEASE="1")
     p = subprocess.run([exe, os.path.join("/verif/drivers/ser_recorder.py"), jp, op], env=env, capture_output=True, text=True, timeout=1800, preexec_fn=_limit_as)
